@@ -1733,21 +1733,18 @@ func scanQRangeKernelsInto(c *core.Ctx, known map[*types.Func]qitv) []ob {
 		for _, f := range pk.Syntax {
 			for _, d := range f.Decls {
 				fd, ok := d.(*ast.FuncDecl)
-				if !ok || fd.Body == nil || fd.Recv == nil || !fd.Name.IsExported() || len(fd.Body.List) != 1 {
+				if !ok || fd.Body == nil || fd.Recv == nil || !fd.Name.IsExported() {
 					continue
 				}
 				if rn := core.RecvTypeName(fd); rn != "SubRing" && !(c.IsFixture && strings.HasPrefix(rn, "qr")) {
 					continue
 				}
-				es, ok := fd.Body.List[0].(*ast.ExprStmt)
-				if !ok {
+				call0, callArgs := forwardingCall(info, fd)
+				if call0 == nil {
 					continue
 				}
-				call, ok := es.X.(*ast.CallExpr)
-				if !ok {
-					continue
-				}
-				kern := calleeFunc(info, call)
+				call := &ast.CallExpr{Fun: call0.Fun, Lparen: call0.Lparen, Args: callArgs, Rparen: call0.Rparen}
+				kern := calleeFunc(info, call0)
 				kd := decl[kern]
 				if kern == nil || kd == nil || kd.Recv != nil {
 					continue
